@@ -121,7 +121,9 @@ def check_retry_table():
             err = quantum.StreamError(code=code, message="m")
             try:
                 got = sm._get_retry_request_or_raise(err, req, cpj, cj, gr)
-            except sm.StreamError:
+            except Exception as ex:  # by name: a canary re-executes the module, which creates a second StreamError class
+                if type(ex).__name__ != "StreamError":
+                    raise
                 got = "raise"
             want = table.get((code, kind), "raise")
             ok = got == want
